@@ -88,3 +88,74 @@ OWN = {
     'C20': [IG + r'(_filter_namespaces_by_route_whitelist|_find_dependencies\w*)$',
             G + r'parse_data_types\w*$', API + r'ApiNamespace\.get_route_io_data_types\w*$'],
 }
+
+
+# ---------------------------------------------------------------------------
+# closure: what the anchored functions rest on
+
+# modules whose functions serve many properties; a function there belongs to every
+# property whose anchored code (transitively) calls it or reads it as a property
+SHARED = ('stone.ir.', 'stone.backend', 'stone.backends.helpers', 'stone.backends.python_helpers',
+          'stone.backends.python_type_mapping', 'stone.backends.swift', 'stone.backends.obj_c')
+
+_SEL = {}
+
+
+def _allowed(src, dst):
+    """May the closure step from a function of module ``src`` to one of ``dst``?"""
+    if dst == src:
+        return True
+    if dst.startswith('stone.frontend') and not src.startswith('stone.frontend'):
+        return False       # the frontend is entered through specs_to_ir only
+    if src.startswith('stone.cli') or src == 'stone.compiler':
+        return dst.startswith('stone.cli')      # orchestration: not what a property rests on
+    if dst.startswith('stone.ir.') or dst in ('stone.backend', 'stone.backends.helpers'):
+        return True
+    if src.startswith('stone.frontend') and dst.startswith('stone.frontend'):
+        return True
+    # helpers of the same backend family
+    fam = src.rsplit('.', 1)[-1].split('_')[0]
+    return dst.rsplit('.', 1)[-1].split('_')[0] == fam and dst.startswith('stone.backends.')
+
+
+def select(pm, patterns, closure=True):
+    """Functions (with their nested functions) matching ``patterns`` plus, with
+    ``closure``, every function they reach in the call graph (property reads
+    included) inside the shared layers."""
+    import re
+    key = (id(pm), tuple(patterns), closure)
+    hit = _SEL.get(key)
+    if hit is not None and hit[0] is pm:
+        return hit[1]
+    pats = [re.compile(p) for p in patterns]
+    roots = [f for q, f in sorted(pm.functions.items())
+             if f.parent is None and any(p.search(q) for p in pats)]
+    chosen = {f.qualname: f for f in roots}
+    if closure:
+        from .callgraph import CallGraph
+        cg = getattr(pm, '_own_cg', None)
+        if cg is None:
+            cg = pm._own_cg = CallGraph(pm, properties=True)
+        work = list(roots)
+        while work:
+            f = work.pop()
+            for _, c in cg.callees(f):
+                top = c
+                while top.parent is not None:
+                    top = top.parent
+                if top.qualname in chosen:
+                    continue
+                if not _allowed(f.module.name, top.module.name):
+                    continue
+                chosen[top.qualname] = top
+                work.append(top)
+    out = []
+
+    def add(f):
+        out.append(f)
+        for g in f.nested.values():
+            add(g)
+    for q in sorted(chosen):
+        add(chosen[q])
+    _SEL[key] = (pm, out)
+    return out
